@@ -121,7 +121,7 @@ Export == pc = "done" => PrintT(<<"RUN", ToJson(hist)>>)
 \* ---- non-vacuity probes (each expected to be violated)
 ProbeTrade    == ~(pc = "done" /\ Len(sn.trades) >= 1)
 MaxQ == CHOOSE q \in Qtys : \A r \in Qtys : r <= q
-ProbeIncrease == ~(pc = "done" /\ \E j \in DOMAIN sn.trades : sn.trades[j].qty > MaxQ)
+ProbeIncrease == ~(Abs(sn.q) > MaxQ)
 ProbeReject   == ~(sn.status = "InsufficientMargin")
 ProbeInvalid  == ~(sn.status = "InvalidStrategy")
 =============================================================================
